@@ -615,6 +615,14 @@ impl Mon {
                 }
             }
         }
+        // whatever the rounding band says about the regime: deposits that are worth nothing after
+        // the write-off are "fully consumed", and such a bank must be shut
+        if qq.asv.is_zero() && !qp.tas.is_zero() {
+            self.r.count("C07.banks_left_with_worthless_deposits");
+            if !killed {
+                self.r.violate("C07", "C07/HandleBankruptcy/deposits-worth-nothing-but-bank-not-killed", format!("bank {}: loss {} deposits {} state {:?}", bk, show(&loss), show(&d_acc.v), bq.config.operational_state));
+            }
+        }
         // account disabled, debt cleared
         let (_, l_after) = pos_of(aq);
         if aq.account_flags & ACCOUNT_DISABLED == 0 {
